@@ -501,4 +501,320 @@ theorem adds_finishBranches (env : Env) (g : LGraph) (branches : List (List Item
     unfold WR; rw [T]; rw [if_neg]
     intro hx; cases hx.2
 
+/-! ## 2. the fragment and the DS‑valued specification -/
+
+mutual
+/-- the expression contains no subquery (at any depth) -/
+def noSub : Expr → Bool
+  | .col _ _ => true
+  | .star _ => true
+  | .lit _ => true
+  | .func _ _ args over => noSubL args && (match over with | some (.mk p o) => noSubL p && noSubL o | none => true)
+  | .cast e _ => noSub e
+  | .case ws els => noSubW ws && (match els with | some e => noSub e | none => true)
+  | .bin _ a b => noSub a && noSub b
+  | .paren e => noSub e
+  | .subq _ => false
+  | .inSubq _ _ _ => false
+  | .exist _ _ => false
+def noSubL : List Expr → Bool
+  | [] => true
+  | e :: r => noSub e && noSubL r
+def noSubW : List When → Bool
+  | [] => true
+  | .mk c r :: rest => noSub c && noSub r && noSubW rest
+end
+
+def noSubI : List Item → Bool
+  | [] => true
+  | .mk e _ _ :: r => noSub e && noSubI r
+
+def noSubOpt : Option Expr → Bool
+  | none => true
+  | some e => noSub e
+
+def isSelect : Query → Bool
+  | .select .. => true
+  | _ => false
+
+mutual
+/-- WHERE conditions the walk handles exactly: subqueries `(q)`, `x IN (q)`, `EXISTS (q)` combined by binary operators at
+    the top level of the condition; every other operand is free of subqueries -/
+def whereOK : Expr → Bool
+  | .bin _ a b => whereOK a && whereOK b
+  | .subq q => fragQ q
+  | .inSubq x _ q => noSub x && fragQ q
+  | .exist _ q => fragQ q
+  | .col _ _ => true
+  | .star _ => true
+  | .lit _ => true
+  | .func _ _ args over => noSubL args && (match over with | some (.mk p o) => noSubL p && noSubL o | none => true)
+  | .cast e _ => noSub e
+  | .case ws els => noSubW ws && (match els with | some e => noSub e | none => true)
+  | .paren e => noSub e
+/-- the fragment: no WITH; subqueries only as derived tables (anywhere in FROM), set‑operation branches and WHERE
+    operands -/
+def fragQ : Query → Bool
+  | .select _ its frm wh grp hav =>
+    noSubI its && fragFs frm && (match wh with | none => true | some e => whereOK e) && noSubL grp && noSubOpt hav
+  | .setop first rest => fragB first && fragOBs rest
+  | .withq _ _ => false
+def fragB : Branch → Bool
+  | .mk q _ => isSelect q && fragQ q
+def fragOBs : List OpBranch → Bool
+  | [] => true
+  | .mk _ b :: r => fragB b && fragOBs r
+def fragE : FromElem → Bool
+  | .table _ _ _ => true
+  | .derived q _ _ => fragQ q
+def fragJs : List Join → Bool
+  | [] => true
+  | .mk _ e on _ :: r => fragE e && noSubOpt on && fragJs r
+def fragF : FromExpr → Bool
+  | .mk base js => fragE base && fragJs js
+def fragFs : List FromExpr → Bool
+  | [] => true
+  | f :: r => fragF f && fragFs r
+end
+
+def whereOKOpt : Option Expr → Bool
+  | none => true
+  | some e => whereOK e
+
+mutual
+/-- datasets read by the subqueries of an expression (mirror of `Spec.rdExpr`) -/
+def dsExpr (env : Env) (cte : List String) : Expr → List DS
+  | .col _ _ | .star _ | .lit _ => []
+  | .func _ _ args over => dsExprs env cte args ++ (match over with | some (.mk p o) => dsExprs env cte p ++ dsExprs env cte o | none => [])
+  | .cast e _ => dsExpr env cte e
+  | .case ws els => dsWhens env cte ws ++ (match els with | some e => dsExpr env cte e | none => [])
+  | .bin _ a b => dsExpr env cte a ++ dsExpr env cte b
+  | .paren e => dsExpr env cte e
+  | .subq q => dsQuery env cte q
+  | .inSubq e _ q => dsExpr env cte e ++ dsQuery env cte q
+  | .exist _ q => dsQuery env cte q
+def dsExprs (env : Env) (cte : List String) : List Expr → List DS
+  | [] => []
+  | e :: r => dsExpr env cte e ++ dsExprs env cte r
+def dsOpt (env : Env) (cte : List String) : Option Expr → List DS
+  | none => []
+  | some e => dsExpr env cte e
+def dsWhens (env : Env) (cte : List String) : List When → List DS
+  | [] => []
+  | .mk c r :: rest => (dsExpr env cte c ++ dsExpr env cte r) ++ dsWhens env cte rest
+def dsItems (env : Env) (cte : List String) : List Item → List DS
+  | [] => []
+  | .mk e _ _ :: r => dsExpr env cte e ++ dsItems env cte r
+/-- datasets read by a query; `cte` = normalised CTE names visible here (mirror of `Spec.rdQuery`) -/
+def dsQuery (env : Env) (cte : List String) : Query → List DS
+  | .select _ its frm wh grp hav =>
+    (((dsFromExprs env cte frm ++ dsItems env cte its) ++ dsOpt env cte wh) ++ dsExprs env cte grp) ++ dsOpt env cte hav
+  | .setop first rest => dsBranch env cte first ++ dsOpBranches env cte rest
+  | .withq cs body => let r := dsCtes env cte cs; r.1 ++ dsQuery env r.2 body
+def dsBranch (env : Env) (cte : List String) : Branch → List DS
+  | .mk q _ => dsQuery env cte q
+def dsOpBranches (env : Env) (cte : List String) : List OpBranch → List DS
+  | [] => []
+  | .mk _ b :: r => dsBranch env cte b ++ dsOpBranches env cte r
+def dsCtes (env : Env) (cte : List String) : List Cte → List DS × List String
+  | [] => ([], cte)
+  | .mk name q :: r =>
+    let rest := dsCtes env (cte ++ [Ident.escapeS name]) r
+    (dsQuery env cte q ++ rest.1, rest.2)
+def dsElem (env : Env) (cte : List String) : FromElem → List DS
+  | .table parts _ _ =>
+    match parts with
+    | [n] => if cte.contains (Ident.escapeS n) then [] else [(mkTable env parts none).d]
+    | _ => [(mkTable env parts none).d]
+  | .derived q _ _ => dsQuery env cte q
+def dsJoins (env : Env) (cte : List String) : List Join → List DS
+  | [] => []
+  | .mk _ e on _ :: r => (dsElem env cte e ++ dsOpt env cte on) ++ dsJoins env cte r
+def dsFromExpr (env : Env) (cte : List String) : FromExpr → List DS
+  | .mk base js => dsElem env cte base ++ dsJoins env cte js
+def dsFromExprs (env : Env) (cte : List String) : List FromExpr → List DS
+  | [] => []
+  | f :: r => dsFromExpr env cte f ++ dsFromExprs env cte r
+end
+
+/-- printed name of a dataset (`Table.__str__` / `Path.__str__`) -/
+def prDS (d : DS) : String := DObj.printed ⟨d, none⟩
+
+theorem tableName_eq (env : Env) (parts : List String) : Spec.tableName env parts = prDS (mkTable env parts none).d := rfl
+
+/-! ## 3. `Spec.rdQuery` = printed names of `dsQuery` -/
+
+theorem mem_insertU (x y : String) (l : List String) : y ∈ Spec.insertU x l ↔ y ∈ l ∨ y = x := by
+  unfold Spec.insertU
+  by_cases h : l.contains x = true
+  · rw [if_pos h]
+    constructor
+    · exact Or.inl
+    · rintro (a | a)
+      · exact a
+      · rw [a]; simpa using h
+  · rw [if_neg h]; simp
+
+theorem mem_unionU (a b : List String) (y : String) : y ∈ Spec.unionU a b ↔ y ∈ a ∨ y ∈ b := by
+  unfold Spec.unionU
+  induction b generalizing a with
+  | nil => simp
+  | cons x r ih =>
+    simp only [List.foldl_cons, ih, mem_insertU, List.mem_cons]
+    constructor
+    · rintro ((h | h) | h)
+      · exact Or.inl h
+      · exact Or.inr (Or.inl h)
+      · exact Or.inr (Or.inr h)
+    · rintro (h | h | h)
+      · exact Or.inl (Or.inl h)
+      · exact Or.inl (Or.inr h)
+      · exact Or.inr h
+
+theorem dsCtes_snd (env : Env) (cs : List Cte) (cte : List String) : (dsCtes env cte cs).2 = (Spec.rdCtes env cte cs).2 := by
+  induction cs generalizing cte with
+  | nil => simp [dsCtes, Spec.rdCtes]
+  | cons c r ih => cases c with | mk name q => simp only [dsCtes, Spec.rdCtes, ih]
+
+mutual
+theorem mem_rdExpr_iff (env : Env) (cte : List String) (t : String) :
+    (e : Expr) → (t ∈ Spec.rdExpr env cte e ↔ t ∈ (dsExpr env cte e).map prDS)
+  | .col _ _ => by simp [Spec.rdExpr, dsExpr]
+  | .star _ => by simp [Spec.rdExpr, dsExpr]
+  | .lit _ => by simp [Spec.rdExpr, dsExpr]
+  | .func _ _ args none => by
+    have h1 := mem_rdExprs_iff env cte t args
+    simp only [Spec.rdExpr, dsExpr, mem_unionU, List.map_append, List.mem_append, List.map_nil, h1]
+  | .func _ _ args (some (.mk p o)) => by
+    have h1 := mem_rdExprs_iff env cte t args
+    have h2 := mem_rdExprs_iff env cte t p
+    have h3 := mem_rdExprs_iff env cte t o
+    simp only [Spec.rdExpr, dsExpr, mem_unionU, List.map_append, List.mem_append, h1, h2, h3]
+  | .cast e _ => by
+    have h1 := mem_rdExpr_iff env cte t e
+    simp only [Spec.rdExpr, dsExpr, h1]
+  | .case ws none => by
+    have h1 := mem_rdWhens_iff env cte t ws
+    simp only [Spec.rdExpr, dsExpr, mem_unionU, List.map_append, List.mem_append, List.map_nil, h1]
+  | .case ws (some e) => by
+    have h1 := mem_rdWhens_iff env cte t ws
+    have h2 := mem_rdExpr_iff env cte t e
+    simp only [Spec.rdExpr, dsExpr, mem_unionU, List.map_append, List.mem_append, h1, h2]
+  | .bin _ a b => by
+    have h1 := mem_rdExpr_iff env cte t a
+    have h2 := mem_rdExpr_iff env cte t b
+    simp only [Spec.rdExpr, dsExpr, mem_unionU, List.map_append, List.mem_append, h1, h2]
+  | .paren e => by
+    have h1 := mem_rdExpr_iff env cte t e
+    simp only [Spec.rdExpr, dsExpr, h1]
+  | .subq q => by
+    have h1 := mem_rdQuery_iff env cte t q
+    simp only [Spec.rdExpr, dsExpr, h1]
+  | .inSubq e _ q => by
+    have h1 := mem_rdExpr_iff env cte t e
+    have h2 := mem_rdQuery_iff env cte t q
+    simp only [Spec.rdExpr, dsExpr, mem_unionU, List.map_append, List.mem_append, h1, h2]
+  | .exist _ q => by
+    have h1 := mem_rdQuery_iff env cte t q
+    simp only [Spec.rdExpr, dsExpr, h1]
+theorem mem_rdExprs_iff (env : Env) (cte : List String) (t : String) :
+    (l : List Expr) → (t ∈ Spec.rdExprs env cte l ↔ t ∈ (dsExprs env cte l).map prDS)
+  | [] => by simp [Spec.rdExprs, dsExprs]
+  | e :: r => by
+    have h1 := mem_rdExpr_iff env cte t e
+    have h2 := mem_rdExprs_iff env cte t r
+    simp only [Spec.rdExprs, dsExprs, mem_unionU, List.map_append, List.mem_append, h1, h2]
+theorem mem_rdOpt_iff (env : Env) (cte : List String) (t : String) :
+    (o : Option Expr) → (t ∈ Spec.rdOpt env cte o ↔ t ∈ (dsOpt env cte o).map prDS)
+  | none => by simp [Spec.rdOpt, dsOpt]
+  | some e => by
+    have h1 := mem_rdExpr_iff env cte t e
+    simp only [Spec.rdOpt, dsOpt, h1]
+theorem mem_rdWhens_iff (env : Env) (cte : List String) (t : String) :
+    (l : List When) → (t ∈ Spec.rdWhens env cte l ↔ t ∈ (dsWhens env cte l).map prDS)
+  | [] => by simp [Spec.rdWhens, dsWhens]
+  | .mk c r :: rest => by
+    have h1 := mem_rdExpr_iff env cte t c
+    have h2 := mem_rdExpr_iff env cte t r
+    have h3 := mem_rdWhens_iff env cte t rest
+    simp only [Spec.rdWhens, dsWhens, mem_unionU, List.map_append, List.mem_append, h1, h2, h3]
+theorem mem_rdItems_iff (env : Env) (cte : List String) (t : String) :
+    (l : List Item) → (t ∈ Spec.rdItems env cte l ↔ t ∈ (dsItems env cte l).map prDS)
+  | [] => by simp [Spec.rdItems, dsItems]
+  | .mk e _ _ :: r => by
+    have h1 := mem_rdExpr_iff env cte t e
+    have h2 := mem_rdItems_iff env cte t r
+    simp only [Spec.rdItems, dsItems, mem_unionU, List.map_append, List.mem_append, h1, h2]
+/-- **the string‑valued specification is the image of the DS‑valued one** (every query, every scope) -/
+theorem mem_rdQuery_iff (env : Env) (cte : List String) (t : String) :
+    (q : Query) → (t ∈ Spec.rdQuery env cte q ↔ t ∈ (dsQuery env cte q).map prDS)
+  | .select _ its frm wh grp hav => by
+    have h1 := mem_rdFromExprs_iff env cte t frm
+    have h2 := mem_rdItems_iff env cte t its
+    have h3 := mem_rdOpt_iff env cte t wh
+    have h4 := mem_rdExprs_iff env cte t grp
+    have h5 := mem_rdOpt_iff env cte t hav
+    simp only [Spec.rdQuery, dsQuery, mem_unionU, List.map_append, List.mem_append, h1, h2, h3, h4, h5]
+  | .setop first rest => by
+    have h1 := mem_rdBranch_iff env cte t first
+    have h2 := mem_rdOpBranches_iff env cte t rest
+    simp only [Spec.rdQuery, dsQuery, mem_unionU, List.map_append, List.mem_append, h1, h2]
+  | .withq cs body => by
+    have h1 := mem_rdCtes_iff env cte t cs
+    have h2 := mem_rdQuery_iff env (Spec.rdCtes env cte cs).2 t body
+    simp only [Spec.rdQuery, dsQuery, mem_unionU, List.map_append, List.mem_append, h1, h2, dsCtes_snd]
+theorem mem_rdBranch_iff (env : Env) (cte : List String) (t : String) :
+    (b : Branch) → (t ∈ Spec.rdBranch env cte b ↔ t ∈ (dsBranch env cte b).map prDS)
+  | .mk q _ => by
+    have h1 := mem_rdQuery_iff env cte t q
+    simp only [Spec.rdBranch, dsBranch, h1]
+theorem mem_rdOpBranches_iff (env : Env) (cte : List String) (t : String) :
+    (l : List OpBranch) → (t ∈ Spec.rdOpBranches env cte l ↔ t ∈ (dsOpBranches env cte l).map prDS)
+  | [] => by simp [Spec.rdOpBranches, dsOpBranches]
+  | .mk _ b :: r => by
+    have h1 := mem_rdBranch_iff env cte t b
+    have h2 := mem_rdOpBranches_iff env cte t r
+    simp only [Spec.rdOpBranches, dsOpBranches, mem_unionU, List.map_append, List.mem_append, h1, h2]
+theorem mem_rdCtes_iff (env : Env) (cte : List String) (t : String) :
+    (l : List Cte) → (t ∈ (Spec.rdCtes env cte l).1 ↔ t ∈ (dsCtes env cte l).1.map prDS)
+  | [] => by simp [Spec.rdCtes, dsCtes]
+  | .mk name q :: r => by
+    have h1 := mem_rdQuery_iff env cte t q
+    have h2 := mem_rdCtes_iff env (cte ++ [Ident.escapeS name]) t r
+    simp only [Spec.rdCtes, dsCtes, mem_unionU, List.map_append, List.mem_append, h1, h2]
+theorem mem_rdElem_iff (env : Env) (cte : List String) (t : String) :
+    (e : FromElem) → (t ∈ Spec.rdElem env cte e ↔ t ∈ (dsElem env cte e).map prDS)
+  | .table [] _ _ => by simp [Spec.rdElem, dsElem, tableName_eq]
+  | .table [n] _ _ => by
+    simp only [Spec.rdElem, dsElem]
+    by_cases h : cte.contains (Ident.escapeS n) = true
+    · rw [if_pos h, if_pos h]; simp
+    · rw [if_neg h, if_neg h]; simp [tableName_eq]
+  | .table (_ :: _ :: _) _ _ => by simp [Spec.rdElem, dsElem, tableName_eq]
+  | .derived q _ _ => by
+    have h1 := mem_rdQuery_iff env cte t q
+    simp only [Spec.rdElem, dsElem, h1]
+theorem mem_rdJoins_iff (env : Env) (cte : List String) (t : String) :
+    (l : List Join) → (t ∈ Spec.rdJoins env cte l ↔ t ∈ (dsJoins env cte l).map prDS)
+  | [] => by simp [Spec.rdJoins, dsJoins]
+  | .mk _ e on _ :: r => by
+    have h1 := mem_rdElem_iff env cte t e
+    have h2 := mem_rdOpt_iff env cte t on
+    have h3 := mem_rdJoins_iff env cte t r
+    simp only [Spec.rdJoins, dsJoins, mem_unionU, List.map_append, List.mem_append, h1, h2, h3]
+theorem mem_rdFromExpr_iff (env : Env) (cte : List String) (t : String) :
+    (f : FromExpr) → (t ∈ Spec.rdFromExpr env cte f ↔ t ∈ (dsFromExpr env cte f).map prDS)
+  | .mk base js => by
+    have h1 := mem_rdElem_iff env cte t base
+    have h2 := mem_rdJoins_iff env cte t js
+    simp only [Spec.rdFromExpr, dsFromExpr, mem_unionU, List.map_append, List.mem_append, h1, h2]
+theorem mem_rdFromExprs_iff (env : Env) (cte : List String) (t : String) :
+    (l : List FromExpr) → (t ∈ Spec.rdFromExprs env cte l ↔ t ∈ (dsFromExprs env cte l).map prDS)
+  | [] => by simp [Spec.rdFromExprs, dsFromExprs]
+  | f :: r => by
+    have h1 := mem_rdFromExpr_iff env cte t f
+    have h2 := mem_rdFromExprs_iff env cte t r
+    simp only [Spec.rdFromExprs, dsFromExprs, mem_unionU, List.map_append, List.mem_append, h1, h2]
+end
+
 end SqlLineage.Proofs.ReadsExact
